@@ -138,12 +138,18 @@ func packPPTPayload(options wamp.Dict, args wamp.List, kwargs wamp.Dict) (wamp.L
 }
 
 func unpackPPTPayload(details wamp.Dict, args wamp.List) (wamp.List, wamp.Dict, error) {
+	// The details and arguments come from another peer, through the router:
+	// nothing about their number or types can be taken for granted.
+	if len(args) == 0 {
+		return nil, nil, ErrSerialization
+	}
 	var payloadTyped *wamp.PassthruPayload
 	pptSerializerStr, ok := details[wamp.OptPPTSerializer]
 	if ok && pptSerializerStr != "native" {
 
 		var serializer serialize.Serializer
-		pptSerializer, ok := PPTSerializers[pptSerializerStr.(string)]
+		pptSerializerName, _ := pptSerializerStr.(string)
+		pptSerializer, ok := PPTSerializers[pptSerializerName]
 		if !ok {
 			return nil, nil, ErrPPTSerializerInvalid
 		}
@@ -159,12 +165,19 @@ func unpackPPTPayload(details wamp.Dict, args wamp.List) (wamp.List, wamp.Dict, 
 			// In future should be extended with FlatBuffers
 		}
 
-		if err := serializer.DeserializeDataItem(args[0].([]byte), &payloadTyped); err != nil {
+		bin, ok := args[0].([]byte)
+		if !ok {
+			return nil, nil, ErrSerialization
+		}
+		if err := serializer.DeserializeDataItem(bin, &payloadTyped); err != nil {
 			return nil, nil, ErrSerialization
 		}
 
-	} else {
-		payloadTyped = args[0].(*wamp.PassthruPayload)
+	} else if payloadTyped, ok = args[0].(*wamp.PassthruPayload); !ok {
+		return nil, nil, ErrSerialization
+	}
+	if payloadTyped == nil {
+		return nil, nil, ErrSerialization
 	}
 
 	return payloadTyped.Arguments, payloadTyped.ArgumentsKw, nil
@@ -200,9 +213,17 @@ func packE2EEPayload(options wamp.Dict, args wamp.List, kwargs wamp.Dict) (wamp.
 
 func unpackE2EEPayload(details wamp.Dict, args wamp.List) (wamp.List, wamp.Dict, error) {
 	var serializer serialize.Serializer
-	pptSerializer, ok := E2eeSerializers[details[wamp.OptPPTSerializer].(string)]
+	pptSerializerName, _ := details[wamp.OptPPTSerializer].(string)
+	pptSerializer, ok := E2eeSerializers[pptSerializerName]
 	if !ok {
 		return nil, nil, ErrPPTSerializerInvalid
+	}
+	if len(args) == 0 {
+		return nil, nil, ErrSerialization
+	}
+	bin, ok := args[0].([]byte)
+	if !ok {
+		return nil, nil, ErrSerialization
 	}
 
 	// Serializer is valid, need to encode payload with it before proceeding
@@ -213,7 +234,7 @@ func unpackE2EEPayload(details wamp.Dict, args wamp.List) (wamp.List, wamp.Dict,
 	}
 
 	var payloadTyped wamp.PassthruPayload
-	if err := serializer.DeserializeDataItem(args[0].([]byte), &payloadTyped); err != nil {
+	if err := serializer.DeserializeDataItem(bin, &payloadTyped); err != nil {
 		return nil, nil, ErrSerialization
 	}
 
